@@ -112,14 +112,17 @@ def run(ctx):
     r.idiom("R18.2", ok_iter, "iterates-sorted-items", "%s:%d" % (REL, lp.lineno),
             "the rebuild loop does not iterate sorted(token['data'].items(), key=_attr_key): %s" % norm(it))
     tgt = lp.target
-    ok_body = (isinstance(tgt, ast.Tuple) and len(tgt.elts) == 2 and all(isinstance(e, ast.Name) for e in tgt.elts) and
-               [norm(s) for s in lp.body] == ["attrs[%s] = %s" % (tgt.elts[0].id, tgt.elts[1].id)] and not lp.orelse)
-    own = isinstance(tgt, ast.Tuple) and len(tgt.elts) == 2 and all(isinstance(e, ast.Name) for e in tgt.elts)
+    pair = isinstance(tgt, ast.Tuple) and len(tgt.elts) == 2 and isinstance(tgt.elts[1], ast.Name)
+    key_txt = norm(tgt.elts[0]).strip("()") if pair else None            # the key as the loop unpacks it: `name` or `namespace, name`
     stores = [s for s in ast.walk(lp) if isinstance(s, ast.Assign) and isinstance(s.targets[0], ast.Subscript) and norm(s.targets[0].value) == "attrs"]
-    r.idiom("R18.2", ok_body, "inserts-under-own-key", "%s:%d" % (REL, lp.lineno),
+    own_key = pair and len(stores) == 1 and norm(stores[0].targets[0].slice).strip("()") == key_txt and norm(stores[0].value) == tgt.elts[1].id \
+        and stores[0] is lp.body[0] and len(lp.body) == 1 and not lp.orelse
+    r.idiom("R18.2", bool(own_key), "inserts-under-own-key", "%s:%d" % (REL, lp.lineno),
             "the rebuild loop does not insert each pair under its own key: %s" % [norm(s) for s in lp.body],
-            wrong=[(own and len(stores) == 1 and (norm(stores[0].targets[0].slice) != tgt.elts[0].id or norm(stores[0].value) != tgt.elts[1].id
-                                                  or stores[0] is not lp.body[0]), None)])
+            wrong=[(pair and len(stores) == 1 and not own_key,
+                    "the rebuild loop stores a pair under `%s` instead of its own key `%s` (or stores something other than its value): "
+                    "attributes whose keys differ only in what was changed (namespace '' vs None) are merged and one value is lost"
+                    % (norm(stores[0].targets[0].slice) if stores else "", key_txt))])
     pre = [s for s in ast.walk(f.node) if isinstance(s, ast.Assign) and norm(s.targets[0]) == "attrs"]
     r.idiom("R18.2", len(pre) == 1 and norm(pre[0].value) in ("OrderedDict()", "{}", "dict()"), "fresh-ordered-mapping",
             f.where, "the new attribute mapping is not a fresh insertion-ordered mapping")
